@@ -494,15 +494,20 @@ def run(ck):
 # --------------------------------------------------------------------------- (iv) switch level
 SW_CHANS = ["c1", "c2", "c3", "c4"]
 SW_PROPERTY_INVS = ["PolicyPropagated", "HandedOnlyIfAdvertisedAccepts", "FailedOnlyIfNoLinkAccepts",
-                    "FailureNamesViolatedRule", "UnknownNextPeerOnlyIf", "DecisionAsAdvertised"]
+                    "FailureNamesViolatedRule", "UnknownNextPeerOnlyIf", "DecisionAsAdvertised", "DecidedAtCurrentHeight"]
 SW_GUARDS = [("shifted", "an HTLC is handed to a parallel channel, not the requested one"),
              ("policyFail", "a forward fails with a policy failure of the requested channel"),
              ("staleChannel", "a policy is advertised for a channel without a live link"),
              ("bwFail", "a forward fails for lack of bandwidth on every parallel channel"),
              ("skipIneligible", "an HTLC is handed over although the requested link is not eligible"),
-             ("nodeHop", "a node-addressed (blinded) next hop is handed to a link")]
+             ("nodeHop", "a node-addressed (blinded) next hop is handed to a link"),
+             ("reorgDecides", "a forward is decided after a reorg onto a shorter branch, differently than at the highest height seen")]
 SW_BAD = [("stopAtMissing", "UpdateForwardingPolicies that stops at the first channel without a live link"),
-          ("honourRequested", "handPacketAdd that prefers the requested channel among ALL candidates")]
+          ("honourRequested", "handPacketAdd that prefers the requested channel among ALL candidates"),
+          ("staleHeight", "handlePacketAdd that decides at the highest height seen, not at the height of the last epoch")]
+# the epoch palette (block epochs in any order, HTLC expiries on the thresholds of every height): SwitchPolicyMC_epoch.cfg
+SW_EPOCH_CONSTS = {"PolNames": '{"PA", "PF"}', "Heights": "{98, 100, 101, 104}",
+                   "HtlcNames": '{"H5", "H6", "H12", "H13", "H14", "H15"}'}
 
 
 def _is_reset(r):
@@ -519,16 +524,26 @@ def switch_mc(ck, thorough):
         ck.model_check(SPEC, "SwitchPolicyMC", "SwitchPolicyMC.cfg",
                        "switch level: every behaviour of <= 4 steps, small palettes", name="mc_switch_deep", timeout=1700,
                        workers=4, constants={"MaxSteps": 4}, extra=x)
+    ck.model_check(SPEC, "SwitchPolicyMC", "SwitchPolicyMC_epoch.cfg",
+                   "switch level, block epochs: every behaviour of <= 3 steps with epochs of 4 heights in any order "
+                   "(up, same, down = reorg) and HTLC expiries on the too-soon / too-far thresholds of every height",
+                   name="mc_switch_epoch", timeout=1700, workers=4, extra=x)
     for g, what in SW_GUARDS:
+        consts = {"Guard": '"%s"' % g}
+        if g == "reorgDecides":
+            consts.update(SW_EPOCH_CONSTS)
         r = ck.model_check(SPEC, "SwitchPolicyMC", "SwitchPolicyMC_guard.cfg", "switch level, vacuity guard: " + what,
                            must_hold=False, name="mc_switch_guard_" + g, timeout=600, workers=2,
-                           constants={"Guard": '"%s"' % g}, extra=x)
+                           constants=consts, extra=x)
         if r.violation != "invariant GuardInv":
             raise Inconclusive("vacuity: SwitchPolicy never reaches '%s' (%s)" % (what, r.violation))
     for v, what in SW_BAD:
+        consts = {"Variant": '"%s"' % v}
+        if v == "staleHeight":
+            consts.update(SW_EPOCH_CONSTS)
         r = ck.model_check(SPEC, "SwitchPolicyMC", "SwitchPolicyMC_bad.cfg", "switch level, wrong variant must break the property: " + what,
                            must_hold=False, name="mc_switch_bad_" + v, timeout=600, workers=2,
-                           constants={"Variant": '"%s"' % v}, extra=x)
+                           constants=consts, extra=x)
         if (r.violation or "").replace("invariant ", "") not in SW_PROPERTY_INVS:
             raise Inconclusive("the invariants of SwitchPolicy do not see the wrong variant '%s' (%s)" % (v, r.violation))
 
@@ -562,12 +577,13 @@ def switch_report(ck, recs, v, seen=()):
     tp = os.path.join(ck.out, "failing_switch_trace.ndjson")
     core.write_ndjson(tp, one)
     sp = os.path.join(ck.out, "failing_switch_schedule.ndjson")
-    keys = ("a", "c", "set", "pol", "rt", "rx", "h", "init")
+    keys = ("a", "c", "set", "pol", "rt", "rx", "h", "hn", "init")
     core.write_ndjson(sp, [{k: r[k] for k in keys} for r in one])
     what = {"Fwd": "forward %s via %s/%s -> %s %s %s" % (json.dumps(bad.get("h")), bad.get("rt"), bad.get("rx"), bad.get("res"),
                                                        bad.get("to"), bad.get("v")),
             "Upd": "policy update of %s to %s -> links enforce %s" % (
-                [c for c in SW_CHANS if bad.get("set", {}).get(c)], json.dumps(bad.get("pol")), json.dumps(bad.get("enf")))
+                [c for c in SW_CHANS if bad.get("set", {}).get(c)], json.dumps(bad.get("pol")), json.dumps(bad.get("enf"))),
+            "Epoch": "block epoch of height %s -> Switch.BestHeight() = %s" % (bad.get("hn"), bad.get("height")),
             }.get(bad.get("a"), bad.get("a"))
     n = len([k for k in seen]) + 1
     tp2, sp2 = tp.replace(".ndjson", "_%d.ndjson" % n), sp.replace(".ndjson", "_%d.ndjson" % n)
@@ -604,15 +620,35 @@ def switch_controls(ck, recs):
         ("res: a hand-over turned into unknown_next_peer", "FailedOnlyIfNoLinkAccepts",
          lambda r: r["a"] == "Fwd" and r["res"] == "fwd" and r["rt"] == "chan",
          lambda r: r.update(res="fail", to="-", v="FailUnknownNextPeer")),
+        ("height: the switch's height after a block epoch that goes back left at the higher height before it",
+         "HeightIsCurrent",
+         lambda r: r["a"] == "Epoch" and r.get("_prev_height", 0) > r["hn"],
+         lambda r: r.update(height=r["_prev_height"])),
+        ("v: an expiry_too_far failure at the current (lower) height turned into a hand-over, as at the height before the reorg",
+         "HandedOnlyIfAdvertisedAccepts",
+         lambda r: r["a"] == "Fwd" and r["v"] == "ExpiryTooFar" and r["rt"] == "chan" and r["h"]["inExp"] - r["h"]["outExp"] <= 2016
+         and r.get("_max_height", 0) > r["height"] and r["h"]["outExp"] <= r["_max_height"] + 2016,
+         lambda r: r.update(res="fwd", to=r["rx"], v="ok")),
     ]
+    mx = 0
+    for j, r in enumerate(recs):      # helper annotations for picking (removed before a control trace is written)
+        if r["a"] == "Reset":
+            mx = 0
+        r["_prev_height"] = recs[j - 1]["height"] if j and r["a"] != "Reset" else r["height"]
+        mx = max(mx, r["height"])
+        r["_max_height"] = mx
     out = []
     for k, (mut, expect, pick, corrupt) in enumerate(muts):
         i = next((j for j, r in enumerate(recs) if pick(r)), None)
+        if i is None and mut.startswith("v: an expiry_too_far"):
+            continue        # needs a rare coincidence (that failure right after a reorg); the height control above is the binding one
         if i is None:
             raise Inconclusive("switch-level negative control: no recorded step for '%s'" % mut)
         a, b = core.slice_trace(recs, i + 1, _is_reset)
         one = copy.deepcopy(recs[a:b])
         corrupt(one[i - a])
+        for r in one:
+            r.pop("_prev_height", None), r.pop("_max_height", None)
         p = os.path.join(ck.out, "control_switch_%d.ndjson" % k)
         core.write_ndjson(p, one)
         v = switch_validate(ck, p, "control_switch_%d" % k)
@@ -623,22 +659,33 @@ def switch_controls(ck, recs):
             raise Inconclusive("switch-level negative control '%s' rejected by %s at line %s, expected %s at line %d"
                                % (mut, inv, v["line"], expect, i - a + 1))
         out.append(dict(mutation=mut + " (switch trace)", rejected_by=v["invariant"], at_line=v["line"]))
+    for r in recs:
+        r.pop("_prev_height", None), r.pop("_max_height", None)
     ck.cov.setdefault("negative_controls", []).extend(out)
 
 
 def switch_stats(recs):
     st = dict(behaviours=0, steps=0, forwards=0, handed=0, shifted=0, failed_policy=0, failed_unknown=0,
               handed_past_ineligible=0, node_hops_handed=0, updates=0, updates_with_linkless_channel=0,
-              updates_reaching_live_link=0, adds=0, removes=0, flushes=0)
+              updates_reaching_live_link=0, adds=0, removes=0, flushes=0, epochs=0, epochs_down=0,
+              forwards_below_highest_height=0, expiry_verdicts_below_highest_height=0)
     distinct = set()
+    prev, mx = 0, 0
     for r in recs:
         a = r["a"]
+        hb, prev = prev, r["height"]
         if a == "Reset":
             st["behaviours"] += 1
+            mx = r["height"]
             continue
+        mx = max(mx, r["height"], r.get("hn", 0))
         st["steps"] += 1
         if a == "Fwd":
             st["forwards"] += 1
+            if r["height"] < mx:
+                st["forwards_below_highest_height"] += 1
+                if r["v"] in ("ExpiryTooSoon", "ExpiryTooFar") or r["h"]["outExp"] in (102, 103, 107, 2115, 2117, 2120):
+                    st["expiry_verdicts_below_highest_height"] += 1
             if r["res"] == "fwd":
                 st["handed"] += 1
                 if r["rt"] == "chan" and r["to"] != r["rx"]:
@@ -653,7 +700,7 @@ def switch_stats(recs):
                 st["failed_policy"] += 1
             live = [c for c in SW_CHANS if r["reg"][c] == "live"]
             if len(live) >= 1:
-                distinct.add(core.sha(json.dumps([a, r["h"], r["rt"], r["rx"], r["reg"], r["el"],
+                distinct.add(core.sha(json.dumps([a, r["h"], r["rt"], r["rx"], r["reg"], r["el"], r["height"],
                                                   {c: r["enf"][c] for c in live}, {c: r["bw"][c] for c in live}],
                                                  sort_keys=True)))
         elif a == "Upd":
@@ -664,6 +711,10 @@ def switch_stats(recs):
             if any(r["reg"][c] == "live" for c in s):
                 st["updates_reaching_live_link"] += 1
                 distinct.add(core.sha(json.dumps([a, r["set"], r["pol"], r["reg"]], sort_keys=True)))
+        elif a == "Epoch":
+            st["epochs"] += 1
+            if r["hn"] < hb:
+                st["epochs_down"] += 1
         elif a == "Add":
             st["adds"] += 1
         elif a == "Remove":
@@ -705,7 +756,7 @@ def switch_part(ck, thorough):
         else:
             # vacuity of an ACCEPTED run only (a defective switch may well never shift an HTLC)
             for k in ("shifted", "failed_policy", "updates_with_linkless_channel", "handed_past_ineligible",
-                      "node_hops_handed", "adds", "removes"):
+                      "node_hops_handed", "adds", "removes", "epochs_down", "expiry_verdicts_below_highest_height"):
                 if not st[k]:
                     raise Inconclusive("vacuity: no '%s' among the executed switch-level steps" % k)
             ck.cov["traces_validated_against_impl"] += st["behaviours"]
